@@ -650,5 +650,20 @@ def step_strategy(gc=True, clock_ticks="forward", props_ops=True, open_txn=True)
     return st.one_of(*weighted)
 
 
+def _macros(gc=True):
+    """Multi-step idioms that random single steps rarely line up: a multi-file commit, a partial delete (manifest rewritten with
+    EXISTING-only entries), removal of the snapshot that originally added the files, then (optionally) ageing + collection."""
+    tail = [{"op": "age", "s": 7200}, {"op": "gc", "grace_ms": 0}] if gc else []
+    return st.sampled_from([
+        [{"op": "txn", "appends": [1, 1], "delete": [], "expire": None}, {"op": "delete_files", "pick": [0], "slash": True, "ghost": False},
+         {"op": "expire", "cut": ("future", 0)}] + tail,
+        [{"op": "txn", "appends": [1, 2, 1], "delete": [], "expire": None}, {"op": "delete_files", "pick": [1], "slash": False, "ghost": False},
+         {"op": "delete_snapshot", "which": 0}, {"op": "delete_snapshot", "which": 0}] + tail + [{"op": "append", "n": 1}],
+        [{"op": "append", "n": 1}, {"op": "txn", "appends": [1, 1], "delete": [0], "expire": ("future", 0)}] + tail,
+    ])
+
+
 def history_strategy(max_steps=25, **kw):
-    return st.lists(step_strategy(**kw), min_size=3, max_size=max_steps)
+    single = step_strategy(**kw).map(lambda s_: [s_])
+    chunks = st.lists(st.one_of(single, single, single, single, single, single, single, _macros(gc=kw.get("gc", True))), min_size=3, max_size=max_steps)
+    return chunks.map(lambda cs: [s_ for c in cs for s_ in c][: max_steps + 6])
